@@ -4,6 +4,7 @@ import collections
 import itertools
 import os
 import random
+import re
 import shutil
 import subprocess
 import tempfile
@@ -532,9 +533,110 @@ def replay(pid, v, path):
         print('history', v['mode'], v['history'])
         print('implementation:', impl)
         print('model         :', model)
-        if impl != model:
+        # per run: `<id> <k> <result> <destination hash> <rewritten>`; the model line ends with the hash of the fresh compilation
+        bad = False
+        prev = 'NONE'
+        for a, b in zip(impl, model):
+            a, b = a.split(' ')[2:], b.split(' ')[2:]
+            fresh = b[3] if len(b) > 3 else '?'
+            if a[:3] != b[:3] or (a[0] == 'OK' and a[1] != fresh) or (a[0] == 'ERR' and a[1] != prev):
+                bad = True
+            prev = a[1]
+        if bad or len(impl) != len(model):
             print('VIOLATION property=%s replay=%s' % (pid, path))
             return 1
+        print('no disagreement on this history now')
         return 0
+    if v.get('kind') in ('gen', 'gentext', 'compile', 'routes', 'front'):
+        return replay_text(pid, v, path)
     print('unknown replay kind', v.get('kind'))
     return 2
+
+
+def replay_text(pid, v, path):
+    """replays whose subject is a grammar text: shown through the front end (shipped and model), the generator (real and
+    model), the command-line tool and the build-script helper, and rustc for the generated code"""
+    from . import routes, gendiff
+    ok, err, dt = build_harness()
+    text = v.get('grammar') or v.get('text') or ''
+    d = tempfile.mkdtemp(prefix='pvreplay-')
+    try:
+        src = os.path.join(d, 'g.ebnf')
+        with open(src, 'w', newline='') as f:
+            f.write(text)
+        print('grammar text:\n' + text[:2000])
+        print('recorded    :', v.get('what'))
+        lst = os.path.join(d, 'l.lst')
+        derives = v.get('derives') or '-'
+        open(lst, 'w').write('g\t%s\t%s\t-\t%s\n' % (src, os.path.join(d, 'g.lib'), derives))
+        q = subprocess.run([routes.PVGEN, 'gen', lst], stdout=subprocess.PIPE, stderr=subprocess.PIPE, text=True, timeout=300)
+        gen_line = (q.stdout.strip() or 'pvgen exit %d (crashed)' % q.returncode)[:300]
+        print('library call :', gen_line)
+        a = subprocess.run([routes.PVGEN, 'ast', lst], stdout=subprocess.PIPE, stderr=subprocess.PIPE, text=True, timeout=300)
+        print('front end    :', (a.stdout.strip() or 'exit %d' % a.returncode)[:300])
+        mf = os.path.join(d, 'front.txt')
+        open(mf, 'w').write('T g %s 20000\n' % (text.encode().hex() or '-'))
+        m = subprocess.run([PEGVERIF, 'frontend', mf], stdout=subprocess.PIPE, stderr=subprocess.PIPE, text=True, timeout=600)
+        print('model front  :', m.stdout.strip()[:300])
+        cli = routes.build_cli()
+        cargs = [cli, src]
+        if derives != '-':
+            for dv in derives.split(','):
+                cargs += ['-d', dv]
+        c = subprocess.run(cargs, stdout=subprocess.PIPE, stderr=subprocess.PIPE, text=True, timeout=120)
+        print('command line : exit %d, %d bytes' % (c.returncode, len(c.stdout)))
+        b = subprocess.run([routes.PVUNIT, 'compile', src, os.path.join(d, 'g.rs'), '-', derives], stdout=subprocess.PIPE, stderr=subprocess.PIPE, text=True, timeout=120)
+        print('build script : ' + b.stdout.strip()[:200])
+        bad = []
+        lib_ok = gen_line.split('\t')[1:2] == ['OK']
+        if q.returncode != 0 and not q.stdout.strip():
+            bad.append('the generator did not answer')
+        if lib_ok:
+            lib = open(os.path.join(d, 'g.lib')).read()
+            if c.returncode != 0 or lib not in c.stdout:
+                bad.append('command-line output differs from the library call')
+            if b.returncode != 0 or lib not in open(os.path.join(d, 'g.rs')).read():
+                bad.append('build-script output differs from the library call')
+            # declared public types against the model of the generator (documented field/arity mapping)
+            if v.get('sexp'):
+                gf = os.path.join(d, 'gen_cases.txt')
+                dv = derives if re.match(r'^[A-Za-z0-9_,:\-]+$', derives) else '#' + derives.encode().hex()
+                open(gf, 'w').write('G g %s 400\n%s\n' % (dv, v['sexp']))
+                mg = subprocess.run([PEGVERIF, 'gen', gf], stdout=subprocess.PIPE, stderr=subprocess.PIPE, text=True, timeout=600)
+                mdecls = [l.split('\t')[2] for l in mg.stdout.splitlines() if l.split('\t')[1:2] == ['DECL']]
+                mcls = next((l.split('\t')[1] for l in mg.stdout.splitlines() if l.split('\t')[1:2] != ['DECL']), '?')
+                idecls = gendiff.extract_decls(lib)
+                print('model        : %s, %d declarations; implementation: %d declarations' % (mcls, len(mdecls), len(idecls)))
+                if mcls != 'ACCEPT':
+                    bad.append('the model of the generator rejects a grammar the generator accepts')
+                elif idecls != mdecls:
+                    k = next((j for j in range(min(len(idecls), len(mdecls))) if idecls[j] != mdecls[j]), min(len(idecls), len(mdecls)))
+                    print('  first difference: implementation %s' % (idecls[k] if k < len(idecls) else '-'))
+                    print('                    model          %s' % (mdecls[k] if k < len(mdecls) else '-'))
+                    bad.append('declared public types differ from the documented field/arity mapping')
+            # rustc on the generated code (the suite's own batch builder, one case)
+            if v.get('sexp'):
+                from . import pegdiff
+                case = dict(id='replay', rules=None, sexp=v['sexp'], text=text, settings=dict(uctx=False), inputs=[], tags=[])
+                try:
+                    r = pegdiff.run_cases_text([case], os.path.join(CACHE, 'replay'))
+                    if r['compile_fail']:
+                        print('rustc        :', list(r['compile_fail'].values())[0][-300:])
+                        bad.append('generated code does not compile')
+                    else:
+                        print('rustc        : generated code compiles')
+                except Exception as e:
+                    print('rustc        : not run (%s)' % str(e)[:100])
+        else:
+            if c.returncode == 0 or b.returncode == 0:
+                bad.append('a grammar the library call rejects is accepted by another route')
+        if (a.stdout.strip().split('\t')[1:2] or ['?'])[0] != (m.stdout.strip().split('\t')[1:2] or ['?'])[0]:
+            bad.append('shipped and model front end disagree')
+        if bad:
+            print('now: ' + '; '.join(bad))
+            print('VIOLATION property=%s replay=%s' % (pid, path))
+            return 1
+        print('no disagreement on this text now (routes agree, front ends agree%s)' % (', code compiles' if lib_ok else ''))
+        return 0
+    finally:
+        shutil.rmtree(d, ignore_errors=True)
